@@ -3,7 +3,7 @@
    no Extract Constant of ours; N / positive / byte / string stay Coq inductives. *)
 Require Extraction.
 Require Import ExtrOcamlBasic.
-From Jamm Require Import Bytes Fnv Consts CLayout Meta Spec Codec Tree Cursor PL Freelist.
+From Jamm Require Import Bytes Fnv Consts CLayout Meta Spec Codec Tree Cursor PL Freelist Conc.
 Extraction Language OCaml.
 Set Extraction KeepSingleton.
 Separate Extraction
@@ -16,4 +16,5 @@ Separate Extraction
   Tree.logical Tree.inv_check Tree.open_db Tree.open_meta Tree.build_tree Tree.flatten Tree.bucket_pages
   Cursor.scan Cursor.seek_scan Cursor.range_scan Cursor.get Cursor.to_item
   PL.accept PL.init_pl PL.writer_view PL.commit_ok
-  Freelist.begin_writer Freelist.tx_allocate Freelist.tx_free Freelist.fl_init Freelist.fl_pages Freelist.fl_size.
+  Freelist.begin_writer Freelist.tx_allocate Freelist.tx_free Freelist.fl_init Freelist.fl_pages Freelist.fl_size
+  Conc.step Conc.init Conc.reader0 Conc.writer0 Conc.snapshots_okb Conc.finished.
